@@ -946,7 +946,7 @@ func (s *State) nonNil(e *Expr) ISet {
 			// an interface holding a typed nil pointer is non-nil as an interface
 			return isConst(1)
 		}
-		if e.Op == "slice" || e.Op == "append" || e.Op == "append1" || e.Op == "makeslice" {
+		if e.Op == "slice" || e.Op == "append" || e.Op == "append1" {
 			return isRange(0, 1)
 		}
 		return isConst(1)
@@ -1169,7 +1169,18 @@ func (s *State) load(addr *Expr, typ types.Type) *Expr {
 	}
 	if addr.Op == "fa" {
 		if whole, ok := s.mem[addr.Args[0].Key]; ok {
+			if s.an != nil && whole.Op == "ld" && len(whole.Args) == 1 && whole.Args[0].Op == "global" {
+				// a copy of a package-level struct of constants
+				if v, ok := s.an.P.constStructField(strings.TrimSuffix(whole.Args[0].S, "#"), addr.S, typ); ok {
+					return mkConst(v, typ)
+				}
+			}
 			return mkField(whole, addr.S, 0, typ)
+		}
+		if s.an != nil && addr.Args[0].Op == "global" {
+			if v, ok := s.an.P.constStructField(strings.TrimSuffix(addr.Args[0].S, "#"), addr.S, typ); ok {
+				return mkConst(v, typ)
+			}
 		}
 	}
 	root := rootOf(addr)
@@ -1207,6 +1218,15 @@ func (s *State) load(addr *Expr, typ types.Type) *Expr {
 				}
 			}
 		}
+		if at, ok := typ.Underlying().(*types.Array); ok && at.Len() >= 1 && at.Len() <= 8 {
+			// a small table of values, every element known: `for _, c := range
+			// [...]T{…}` reads it back by constant index
+			if _, isBasic := at.Elem().Underlying().(*types.Basic); !isBasic {
+				if v, ok := s.rebuild(addr, typ, 0); ok {
+					return v
+				}
+			}
+		}
 		if st, ok := typ.Underlying().(*types.Struct); ok {
 			var args []*Expr
 			all := true
@@ -1228,6 +1248,47 @@ func (s *State) load(addr *Expr, typ types.Type) *Expr {
 
 	cls := aliasClass(addr)
 	return mk("ld", typ, "@"+s.ver[cls], 0, addr)
+}
+
+// rebuild reassembles the value stored at addr from the cells below it
+// (fields of structs, elements of small arrays).
+func (s *State) rebuild(addr *Expr, typ types.Type, depth int) (*Expr, bool) {
+	if v, ok := s.mem[addr.Key]; ok {
+		return v, true
+	}
+	if depth > 3 {
+		return nil, false
+	}
+	switch u := typ.Underlying().(type) {
+	case *types.Struct:
+		var args []*Expr
+		for i := 0; i < u.NumFields(); i++ {
+			f := u.Field(i)
+			fa := mkFieldAddr(addr, f.Name(), i, types.NewPointer(f.Type()), ownerName(typ))
+			v, ok := s.rebuild(fa, f.Type(), depth+1)
+			if !ok {
+				return nil, false
+			}
+			args = append(args, mkStr(f.Name()), v)
+		}
+		return mk("struct", typ, types.TypeString(typ, nil), 0, args...), true
+	case *types.Array:
+		if u.Len() < 1 || u.Len() > 8 {
+			return nil, false
+		}
+		arr := mk("arr", types.NewPointer(typ), "", u.Len(), addr)
+		var vals []*Expr
+		for i := int64(0); i < u.Len(); i++ {
+			ia := mkIndexAddr(arr, mkConst(i, intT), types.NewPointer(u.Elem()))
+			v, ok := s.rebuild(ia, u.Elem(), depth+1)
+			if !ok {
+				return nil, false
+			}
+			vals = append(vals, v)
+		}
+		return mk("arrval", typ, "", 0, vals...), true
+	}
+	return nil, false
 }
 
 // zeroInit records the zero value of a freshly allocated object explicitly
@@ -1293,6 +1354,16 @@ func mayAlias(s *State, a, b *Expr) bool {
 	}
 	if a.Op == "fa" && b.Op == "fa" && a.Args[0].Key == b.Args[0].Key {
 		return a.S == b.S
+	}
+	if a.Op == "fa" && b.Op == "fa" {
+		// fields of distinct elements of one array
+		if ra, la, ha, oka := span(a.Args[0]); oka {
+			if rb, lb, hb, okb := span(b.Args[0]); okb && ra == rb {
+				if ha <= lb || hb <= la {
+					return false
+				}
+			}
+		}
 	}
 	return true
 }
